@@ -21,6 +21,9 @@
 (***************************************************************************************************)
 EXTENDS Fx, TLC, ScalingBig
 
+RECURSIVE Pow2(_)
+Pow2(e) == IF e = 0 THEN 1 ELSE 2 * Pow2(e - 1)
+
 S  == 10000       \* fixed point scale of values
 SP == 1000000     \* fixed point scale of scales / whitening matrices
 
@@ -66,7 +69,8 @@ Specified(meth, st) == ~(meth = "minmax" /\ st.mx = st.mn) /\ ~(meth = "maxabs" 
 \* of two carried by the case (d = 1: the integers themselves).  Dimensionless images (standardised, min-max,
 \* max-abs) do not depend on d; images in data units (centred only / unchanged) do.
 \* image of entry z in a column with statistics st and unit 1/d, observed as y (scale S), tolerance sl grid units
-LinCellOk(meth, lo, hi, st, z, y, sl, d) ==
+\* the min-max range is lo/rd .. hi/rd (rd = 1 or 2: integers and halves, exact in binary floating point)
+LinCellOk(meth, lo, hi, st, z, y, sl, d, rd) ==
   CASE meth = "std"    -> IF st.var THEN SqrtOkI(y, Cen(st, z), st.dn, sl, S)
                                     ELSE RatOk(y, Cen(st, z), st.n * d, sl)         \* constant: only centred
     [] meth = "nomean" -> IF st.var
@@ -79,7 +83,7 @@ LinCellOk(meth, lo, hi, st, z, y, sl, d) ==
     [] meth = "nostd"  -> RatOk(y, Cen(st, z), st.n * d, sl)
     [] meth = "none"   -> RatOk(y, z, d, sl)
     [] meth = "minmax" -> st.mx > st.mn =>
-                            RatOk(y, (z - st.mn) * (hi - lo) + lo * (st.mx - st.mn), st.mx - st.mn, sl)
+                            RatOk(y, (z - st.mn) * (hi - lo) + lo * (st.mx - st.mn), (st.mx - st.mn) * rd, sl)
     [] meth = "maxabs" -> st.ma > 0 => RatOk(y, z, st.ma, sl)
 
 \* centred second moment of an observed column: n * SUM y^2 - (SUM y)^2  (= n^2 * variance, scale S^2)
@@ -89,7 +93,7 @@ M2(ycol) == BSub(BMulI(BDotI(ycol, ycol), Len(ycol)), BSq(SumB(ycol)))
 BWithin(a, b, tol) == BLe(BAbs(BSub(a, b)), tol)
 
 \* normalisation reached on the training matrix: ycol = observed outputs of column with statistics st, unit 1/d
-LinPostOk(meth, lo, hi, st, ycol, sl, d) ==
+LinPostOk(meth, lo, hi, st, ycol, sl, d, rd) ==
   LET n    == st.n
       n2   == n * n
       mean0 == BWithin(SumB(ycol), <<>>, BInt(n * sl))                               \* mean 0
@@ -104,8 +108,8 @@ LinPostOk(meth, lo, hi, st, ycol, sl, d) ==
        [] meth = "nostd"  -> mean0 /\ varK
        [] meth = "none"   -> meanK /\ varK
        [] meth = "minmax" -> st.mx > st.mn =>                                     \* both ends attained
-                               /\ Abs(MinSeq(ycol) - S * lo) <= sl
-                               /\ Abs(MaxSeq(ycol) - S * hi) <= sl
+                               /\ Abs(rd * MinSeq(ycol) - S * lo) <= sl * rd
+                               /\ Abs(rd * MaxSeq(ycol) - S * hi) <= sl * rd
        [] meth = "maxabs" -> st.ma > 0 => Abs(MaxSeq(AbsSeq(ycol)) - S) <= sl
 
 \* published parameters of one column, observed in the unit of the integer entries: off = offset * d (scale S),
@@ -175,14 +179,36 @@ FullRank(X, p) ==
 
 \* y = (x - mean) W^T, W observed at scale SP = 100 S (row a of W = wrow), mean exact; after division by S:
 \*   | 100 n y - SUM_b (n x_b - sum_b) w_b | <= wq * SUM_b |n x_b - sum_b| + 100 n sl
-WhCellOk(sts, x, wrow, y, sl, wq) ==
+\* ext = additional tolerance in the same units (0 normally; see WhMeanExtra for columns carrying a large offset)
+WhCellOkX(sts, x, wrow, y, sl, wq, ext) ==
   LET p    == Len(x)
       cen  == [b \in 1..p |-> Cen(sts[b], x[b])]
       n    == sts[1].n
       sa   == SumSeq(AbsSeq(cen))
-  IN IF sa <= 200 /\ Abs(y) <= 100000 /\ n <= 40 /\ \A b \in 1..p : Abs(wrow[b]) <= 5000000
-       THEN Abs(100 * n * y - SumSeq([b \in 1..p |-> cen[b] * wrow[b]])) <= wq * sa + 100 * n * sl   \* < 2^31
-       ELSE BWithin(BMulI(BInt(y), 100 * n), BDotI(cen, wrow), BInt(wq * sa + 100 * n * sl))
+  IN IF sa <= 200 /\ Abs(y) <= 100000 /\ n <= 40 /\ ext <= 100000000 /\ \A b \in 1..p : Abs(wrow[b]) <= 5000000
+       THEN Abs(100 * n * y - SumSeq([b \in 1..p |-> cen[b] * wrow[b]])) <= wq * sa + 100 * n * sl + ext  \* < 2^31
+       ELSE BWithin(BMulI(BInt(y), 100 * n), BDotI(cen, wrow), BAdd(BInt(wq * sa + 100 * n * sl), BInt(ext)))
+WhCellOk(sts, x, wrow, y, sl, wq) == WhCellOkX(sts, x, wrow, y, sl, wq, 0)
+
+\* Columns carrying a large offset 2^oe[b] (exactly representable data; the specification works on the un-shifted
+\* integers, whitening being shift-equivariant in the mean and shift-invariant otherwise).  A backward-stable
+\* centring subtracts a mean that is correct to one or two units in the last place of the offset:
+\*   | fitted mean - true mean | <= 2^(oe - T + 1)      (T = 52 for f64, 23 for f32; T - 1 - oe >= 0 here)
+\* which moves EVERY whitened row by the same vector -delta W^T.  In the units of WhCellOk this adds
+\*   n * SUM_b 2^(oe[b] - T + 1) |w_b|   <=  n * SUM_b (|w_b| \div 2^(T - 1 - oe[b]) + 1)        (columns with oe[b] > 0)
+WhMeanExtra(n, wrow, oe, T) ==
+  n * SumSeq([b \in 1..Len(wrow) |-> IF oe[b] = 0 THEN 0
+                                        ELSE IF T - 1 - oe[b] >= 30 THEN 1
+                                        ELSE Abs(wrow[b]) \div Pow2(T - 1 - oe[b]) + 1])
+\* ... while DIFFERENCES of rows are unaffected (differences of exactly representable values are exact):
+\*   | 100 n (y - yref) - SUM_b n (x_b - xref_b) w_b | <= wq * SUM_b n |x_b - xref_b| + 200 n sl
+WhDiffOk(n, x, xref, wrow, y, yref, sl, wq) ==
+  LET p   == Len(x)
+      dx  == [b \in 1..p |-> n * (x[b] - xref[b])]
+      sa  == SumSeq(AbsSeq(dx))
+  IN IF sa <= 200 /\ Abs(y) <= 100000 /\ Abs(yref) <= 100000 /\ n <= 40 /\ \A b \in 1..p : Abs(wrow[b]) <= 5000000
+       THEN Abs(100 * n * (y - yref) - SumSeq([b \in 1..p |-> dx[b] * wrow[b]])) <= wq * sa + 200 * n * sl
+       ELSE BWithin(BMulI(BSub(BInt(y), BInt(yref)), 100 * n), BDotI(dx, wrow), BInt(wq * sa + 200 * n * sl))
 
 \* sample covariance (ddof 1) of the observed training outputs Y (rows) is the identity:
 \*   | n SUM y_a y_b - SUM y_a SUM y_b - n (n-1) S^2 [a = b] | <= n (n-1) S * slw
@@ -194,6 +220,19 @@ WhCovOk(Y, p, slw) ==
     IN BWithin(BSub(BMulI(BDotI(ya, yb), n), BMul(SumB(ya), SumB(yb))),
                IF a = b THEN BMul(BInt(n * (n - 1)), BMul(BInt(S), BInt(S))) ELSE <<>>,
                BMulI(BInt(n * (n - 1)), S * slw))
+
+\* The same when the fitted mean may be off by delta (large column offsets, see WhMeanExtra): the code then whitens
+\* the second moment about the fitted mean, and the covariance about the true mean is I - n/(n-1) ybar ybar^T, where
+\* ybar = -W delta is the (small, common) mean of the whitened rows.  In the units above the tolerance grows by
+\* |SUM y_a| |SUM y_b|, a quantity of the outputs themselves.
+WhCovOkShift(Y, p, slw) ==
+  LET n == Len(Y) IN
+  \A a \in 1..p : \A b \in a..p :
+    LET ya == Col(Y, a)
+        yb == Col(Y, b)
+    IN BWithin(BSub(BMulI(BDotI(ya, yb), n), BMul(SumB(ya), SumB(yb))),
+               IF a = b THEN BMul(BInt(n * (n - 1)), BMul(BInt(S), BInt(S))) ELSE <<>>,
+               BAdd(BMulI(BInt(n * (n - 1)), S * slw), BMul(BAbs(SumB(ya)), BAbs(SumB(yb)))))
 
 -----------------------------------------------------------------------------
 (* Part 2 -- bounded design model.  Fit fixes the parameters; Apply maps one row at a time (the    *)
@@ -259,11 +298,9 @@ IdealRow(x) ==
   ELSE IF meth \in Norms THEN IdealNorm(meth, x)
   ELSE <<IdealWh1(par[1], x[1])>>
 
-RECURSIVE Pow2(_)
-Pow2(e) == IF e = 0 THEN 1 ELSE 2 * Pow2(e - 1)
 \* <<lo, hi, d>>: min-max range and the unit 1/d of the columns (d = 2^SmallSh only for one-column linear scalers)
 Units(m, p) == IF SmallSh > 0 /\ p = 1 /\ m \in LinMethods THEN {1, Pow2(SmallSh)} ELSE {1}
-Ranges(m, p) == {<<r[1], r[2], d>> : r \in (IF m = "minmax" THEN {<<0, 1>>, <<-1, 1>>, <<5, 10>>, <<2, 2>>} ELSE {<<0, 1>>}),
+Ranges(m, p) == {<<r[1], r[2], d>> : r \in (IF m = "minmax" THEN {<<0, 1>>, <<-1, 1>>, <<5, 10>>, <<2, 2>>, <<1, 2>>, <<-1, 0>>} ELSE {<<0, 1>>}),
                                      d \in Units(m, p)}
 
 Init ==
@@ -305,7 +342,7 @@ YCol(j) == [i \in 1..N |-> outs[i][j]]
 InvAccept ==
   \A r \in {k} \ {0} :                 \* the row applied last (every row is the last one in some state)
     IF meth \in LinMethods
-      THEN \A j \in 1..P : LinCellOk(meth, rng[1], rng[2], par[j], AllRows[r][j], outs[r][j], 1, rng[3])
+      THEN \A j \in 1..P : LinCellOk(meth, rng[1], rng[2], par[j], AllRows[r][j], outs[r][j], 1, rng[3], 1)
     ELSE IF meth \in Norms THEN NormRowOk(meth, AllRows[r], outs[r], 1)
     ELSE TRUE
 
@@ -315,7 +352,7 @@ InvTight ==
   \A r \in {k} \ {0} : \A j \in 1..P : \A d \in {-3, 3} :
     IF meth \in LinMethods
       THEN Specified(meth, par[j]) =>
-             ~LinCellOk(meth, rng[1], rng[2], par[j], AllRows[r][j], outs[r][j] + d, 1, rng[3])
+             ~LinCellOk(meth, rng[1], rng[2], par[j], AllRows[r][j], outs[r][j] + d, 1, rng[3], 1)
     ELSE IF meth \in Norms THEN ZeroRow(AllRows[r]) \/ ~NormRowOk(meth, AllRows[r], Bump(outs[r], j, d), 1)
     ELSE TRUE
 
@@ -323,7 +360,7 @@ InvTight ==
 InvPost ==
   k >= N =>
     IF meth \in LinMethods
-      THEN \A j \in 1..P : LinPostOk(meth, rng[1], rng[2], par[j], YCol(j), 1, rng[3])
+      THEN \A j \in 1..P : LinPostOk(meth, rng[1], rng[2], par[j], YCol(j), 1, rng[3], 1)
     ELSE IF meth = "wh1" THEN WhCovOk([i \in 1..N |-> outs[i]], 1, 4)
     ELSE TRUE
 
@@ -333,7 +370,7 @@ InvPostTight ==
   k >= N =>
     /\ meth \in {"std", "nomean"} =>
          \A j \in 1..P : par[j].var /\ (meth = "std" \/ par[j].sum = 0) =>
-                           ~LinPostOk(meth, rng[1], rng[2], par[j], Stretch(YCol(j)), 1, rng[3])
+                           ~LinPostOk(meth, rng[1], rng[2], par[j], Stretch(YCol(j)), 1, rng[3], 1)
     /\ meth = "wh1" => ~WhCovOk([i \in 1..N |-> <<outs[i][1] + outs[i][1] \div 50>>], 1, 4)
 
 \* parameters do not depend on the order of the training rows
